@@ -266,6 +266,41 @@ def h_negative_power_switch(E):
     return seq
 
 
+def h_registered_defaults(E, cls):
+    """registered class defaults (the plugin mechanism) are never altered by constructing or calling graders"""
+    import mitxgraders as m
+    C = {'string': m.StringGrader, 'formula': m.FormulaGrader, 'list': m.ListGrader, 'item-base': m.StringGrader}[cls]
+    target = m.baseclasses.ItemGrader if cls == 'item-base' else C
+    reg = {'wrong_msg': 'registered'} if cls in ('string', 'item-base') else ({'tolerance': 0.5} if cls == 'formula' else {'partial_credit': False})
+    try:
+        target.register_defaults(dict(reg))
+        snap = copy.deepcopy(target.default_values)
+        variant = E.choice('config', ['kwargs', 'dict', 'empty', 'override'])
+        base = {'string': dict(answers='cat'), 'item-base': dict(answers='cat'), 'formula': dict(answers='1'), 'list': dict(answers=['a', 'b'], subgraders=m.StringGrader())}[cls]
+        if variant == 'kwargs':
+            g = C(**base)
+        elif variant == 'dict':
+            g = C(dict(base))
+        elif variant == 'empty':
+            g = C(**({'subgraders': m.StringGrader()} if cls == 'list' else {}))
+        else:
+            ov = {'wrong_msg': 'mine'} if cls in ('string', 'item-base') else ({'tolerance': 0.1} if cls == 'formula' else {'partial_credit': True})
+            g = C(**dict(base, **ov))
+        E.check('registered-defaults-untouched-by-construction', target.default_values == snap)
+        key = list(reg)[0]
+        E.check('registered-default-applies-unless-overridden', g.config[key] == (reg[key] if variant != 'override' else {'wrong_msg': 'mine', 'tolerance': 0.1, 'partial_credit': True}[key]))
+        # a later grader of the same class is built from the registered defaults only, not from an earlier grader's configuration
+        g2 = C(**({'subgraders': m.StringGrader()} if cls == 'list' else {}))
+        E.check('later-instances-unaffected', (not g2.config['answers']) and g2.config[key] == reg[key])
+        if cls != 'list':
+            _call(g, None, 'cat' if cls != 'formula' else '1')
+        E.check('registered-defaults-untouched-by-grading', target.default_values == snap)
+    finally:
+        target.clear_registered_defaults()
+    E.check('defaults-cleared', target.default_values is None)
+    return 'ok'
+
+
 def harnesses(tier):
     hs = []
     T = tier == 'thorough'
@@ -280,6 +315,8 @@ def harnesses(tier):
                     'all event sequences of that length', validate=False)
     for cls in ('string', 'formula', 'matrix', 'singlelist', 'list'):
         add(h_author_config, 'author_config', dict(cls=cls), 'construction + repeated grading')
+    for cls in ('string', 'formula', 'list', 'item-base'):
+        add(h_registered_defaults, 'registered_defaults', dict(cls=cls), 'kwargs / dict / empty / overriding configuration', validate=False)
     add(h_scopes, 'scopes', {}, '9 formulas incl. failing ones, symbolic variable value')
     add(h_negative_power_switch, 'negative_power_switch', {}, 'all sequences of 3 calls over 2 graders x 6 inputs', validate=False)
     return hs
